@@ -31,3 +31,8 @@ Node *g_H; _Bool g_created, g_att, g_H_held, g_other_alive; CLT *g_att_cl; EDT *
 #ifdef UNIT_REMOVERS
 void *g_wrapped_data; int g_arg; int g_l_calls, g_rm_calls, g_c_calls; unsigned long g_seq, g_l_seq, g_rm_seq; _Bool g_cond; void *g_cur_target; Node *g_cur_handle; int g_cur_event; void *g_cur_data; Node *g_new_handle;
 #endif
+#ifdef UNIT_DISPATCHER
+int g_K; WPair g_anonP; int g_n, g_op; CLT *g_cl; int g_cbid; Node *g_hp; void *g_fn; Node *g_rh; _Bool g_rb; unsigned long g_seq, g_call_seq, g_mix_seq;
+int g_mix_n; _Bool g_mix_ret; int g_mix_postid; void *g_mix_self; int g_dd_n, g_dd_key, g_dd_arg; struct Mutex *g_dmutex;
+VArg *g_fe_args; CLT *g_fe_list; int g_fe_n; _Bool g_fe_ret; int g_cb_n; VArg *g_cb_arg; _Bool g_cb_ret; Callback *g_cb_f;
+#endif
